@@ -608,6 +608,7 @@ pub fn finditer_op(a: &[&str]) -> Option<String> {
                 Some(o) => owned = Some(o.clone()),
                 None => it = it.clone(),
             },
+            #[cfg(not(memchr_verif_noalloc))]
             'o' => {
                 if owned.is_none() {
                     owned = Some(it.clone().into_owned());
@@ -664,6 +665,7 @@ pub fn rfinditer_op(a: &[&str]) -> Option<String> {
                 Some(o) => owned = Some(o.clone()),
                 None => it = it.clone(),
             },
+            #[cfg(not(memchr_verif_noalloc))]
             'o' => {
                 if owned.is_none() {
                     owned = Some(it.clone().into_owned());
@@ -676,99 +678,3 @@ pub fn rfinditer_op(a: &[&str]) -> Option<String> {
     Some(format!("{} ns={}", tail(j(&out), j(&oracle), search_allocs), total_ns))
 }
 
-/// `finderops <cfg> <pf> <needle> <ops>`; ops `,`-separated: `f:<hay>` `r` `o` `k` `n`.
-/// `allocs` counts heap allocations made inside the memchr calls only (harness bookkeeping is
-/// outside the measured closures); `steps` excludes construction.
-pub fn finderops_op(a: &[&str]) -> Option<String> {
-    if a.len() != 4 {
-        return None;
-    }
-    let needle = parse_bytes(a[2])?;
-    let ops: Vec<&str> = if a[3] == "-" { vec![] } else { a[3].split(',').collect() };
-    // the needle buffer is heap-owned here so that it can be overwritten after `into_owned`
-    let mut nbuf = needle.clone();
-    let mut hays: Vec<Option<(Vec<u8>, Placed)>> = Vec::new();
-    for o in ops.iter() {
-        match o.strip_prefix("f:") {
-            Some(h) => {
-                let b = parse_bytes(h)?;
-                let p = Placed::new(&b, 65536);
-                hays.push(Some((b, p)));
-            }
-            None => hays.push(None),
-        }
-    }
-    let mut out: Vec<String> = Vec::with_capacity(ops.len() + 2);
-    let mut oracle: Vec<String> = Vec::with_capacity(ops.len() + 2);
-    let mut total_allocs = 0u64;
-    let steps;
-    {
-        // Every handle is a `Finder<'static>`: the needle buffer and the finders that `as_ref`
-        // borrows from are leaked (outside the measured closures), so that `r` can really
-        // continue with the borrowed copy.
-        let nleak: &'static mut [u8] = Box::leak(nbuf.clone().into_boxed_slice());
-        let nptr = nleak.as_mut_ptr();
-        let nlen = nleak.len();
-        let nstatic: &'static [u8] = unsafe { core::slice::from_raw_parts(nptr, nlen) };
-        let mut cur: memchr::memmem::Finder<'static> = build(a[1], "default", nstatic)?;
-        let mut borrowed_alive = true; // some live handle may still borrow the original buffer
-        let mut is_owned = false;
-        crate::vreset();
-        verif::set_trace(false);
-        for (i, op) in ops.iter().enumerate() {
-            if op.starts_with("f:") {
-                let (hb, hp) = hays[i].as_ref().unwrap();
-                let (r, al) = alloc_probe::measure(|| cur.find(hp.slice()));
-                total_allocs += al;
-                out.push(fmt_opt(r));
-                oracle.push(fmt_opt(naive_find(hb, &needle)));
-            } else if *op == "n" {
-                let (_, al) = alloc_probe::measure(|| cur.needle().len());
-                total_allocs += al;
-                out.push(crate::ops2::hex(cur.needle()));
-                oracle.push(crate::ops2::hex(&needle));
-            } else if *op == "k" {
-                let (c2, al) = alloc_probe::measure(|| cur.clone());
-                total_allocs += al;
-                cur = c2;
-            } else if *op == "o" {
-                let (c2, al) = alloc_probe::measure(|| cur.into_owned());
-                total_allocs += al;
-                cur = c2;
-                is_owned = true;
-            } else if *op == "r" {
-                let leaked: &'static memchr::memmem::Finder<'static> = Box::leak(Box::new(cur));
-                let (c2, al) = alloc_probe::measure(|| leaked.as_ref());
-                total_allocs += al;
-                cur = c2;
-                if !is_owned {
-                    borrowed_alive = true;
-                }
-                // the copy borrows from `leaked` (owned or not); it is a borrowed handle again
-                is_owned = false;
-            } else {
-                return None;
-            }
-        }
-        let rep = verif::take();
-        steps = rep.ticks.iter().sum::<u64>();
-        let _ = borrowed_alive;
-        // after into_owned the original needle buffer may be destroyed
-        if is_owned {
-            unsafe {
-                for k in 0..nlen {
-                    *nptr.add(k) = 0xEE;
-                }
-            }
-            if let Some(Some((hb, hp))) = hays.iter().rev().find(|h| h.is_some()) {
-                if cur.find(hp.slice()) != naive_find(hb, &needle) || cur.needle() != &needle[..] {
-                    out.push("OWNED-NEEDLE-LOST".to_string());
-                    oracle.push("ok".to_string());
-                }
-            }
-        }
-        nbuf.clear();
-    }
-    let j = |v: &Vec<String>| if v.is_empty() { "-".to_string() } else { v.join(",") };
-    Some(format!("ok {} allocs={} steps={} oracle={}", j(&out), total_allocs, steps, j(&oracle)))
-}
